@@ -301,12 +301,14 @@ def run(pid, tier, seed):
     P, R = load(log)
     obs = build(pid, P, R, tier, log_dir)
     import emit_props
+    import lower_props
     import plan_props
     import tc_props
     if pid in ("C07", "C04", "C13"):
         obs += plan_props.build(pid, P, R, tier, log_dir)
     obs += tc_props.build(pid, P, R, tier, log_dir)
     obs += emit_props.build(pid, P, R, tier, log_dir)
+    obs += lower_props.build(pid, P, R, tier, log_dir)
     results = []
     for ob in obs:
         t0 = time.time()
